@@ -39,3 +39,10 @@ CONFIG = dict(
 )
 
 CONFIG["level_text"] = CONFIG["level_text"] + " " + 'Template level: an evaluate-then-update typestate analysis over the component trees is proved sound (reported best = minimum returned, for every execution of an abstract interpreter), and the kernel re-evaluates it by `decide` on the regenerated trees of all 21 templates x 4 parameter points (84 obligations; firefly = false, the recorded finding, with a concrete violating model execution; ILS = not applicable, decided by the run-level check).'
+
+# K-only stream: the component classes the template-level analysis relies on (Tpl.callsObjective / Tpl.eclass) are
+# compared with what every executed component of every template run was observed to do.
+CONFIG["extra"] = [dict(bin="c16", drv="drv_c16", args=["--audit"], head="audit")]
+CONFIG["trusted_base"] = CONFIG.get("trusted_base", []) + [
+    "component classes of Model/TemplatesEval.lean (callsObjective, insertsCounter, eclass) are declared, not derived; "
+    "validated per executed step of all template runs by the audit stream (K)"]
